@@ -19,7 +19,7 @@ import numpy as np
 
 import sim  # noqa: F401
 from sim import build
-from sim.core import attempt, exc_tag
+from sim.core import attempt, deep_tier, exc_tag
 from sim.oracle import STAT_FIELDS, arrays_equal, first_diff, missed_tuple, num_equal, snap, snap_diff
 
 PROPERTY = "C05"
@@ -81,6 +81,9 @@ def generate(rng, seed, part):
                 axes[-1]["width"] = rng.choice([1e-3, 0.01, 0.25])
                 axes[-1]["offset"] = rng.choice([1e3, 5e4, -2e3])
     n = rng.choice([0, 2, 3, 5, 8, 12, 20, 30])
+    deep = deep_tier(rng)
+    if deep:
+        n = rng.choice([50, 100, 200])
     entries = []
     if mode == "fixed":
         pools = [build.axis_pool(build.spec_bins(a)) for a in axes]
@@ -98,7 +101,7 @@ def generate(rng, seed, part):
                     x = build.near(x, rng.choice([-1, 1]))
                 vals.append(x)
             entries.append([vals[0] if ndim == 1 else vals, build.draw_weight(rng, wkind)])
-    P = rng.randint(1, 5)
+    P = rng.randint(1, 5) if not deep else rng.randint(4, 9)
     assign = [rng.randrange(P) for _ in range(n)]
     if rng.random() < 0.3 and n:  # contiguous blocks -> disjoint ranges for adaptive partials
         order = sorted(range(n), key=lambda i: entries[i][0] if ndim == 1 else entries[i][0][0])
@@ -114,7 +117,7 @@ def generate(rng, seed, part):
     ops = []
     nodes = list(range(P))  # node ids; new results get fresh ids
     nxt = P
-    steps = rng.randint(1, 8)
+    steps = rng.randint(1, 8) if not deep else rng.randint(8, 24)
     for _ in range(steps):
         r = rng.random()
         if r < 0.30 and len(nodes) >= 1:
